@@ -258,6 +258,28 @@ func enumerateSigFaults(b SignedBase, yield func(SigCase) bool) bool {
 		decoys = append(decoys, ArMember{Name: "data.tar", Mode: "100644", Data: emptyTar})
 	}
 	decoys = append(decoys, ArMember{Name: dataName, Mode: "100644", Data: map[bool][]byte{true: emptyTar, false: emptyGz}[dataName == "data.tar"]})
+	// members that merely carry the prefix (no tarball name) are second control/data members too
+	decoys = append(decoys, ArMember{Name: "data.orig", Mode: "100644", Data: emptyTar}, ArMember{Name: "control.orig", Mode: "100644", Data: evilTar},
+		ArMember{Name: "data.", Mode: "100644", Data: []byte("x")}, ArMember{Name: "control.tar.Z", Mode: "100644", Data: evilTar})
+	// swap: the signed member keeps its bytes under a non-tarball name and a substitute takes its place
+	for _, which := range []int{1, 2} {
+		ms := append([]ArMember{}, members...)
+		orig := ms[which]
+		subst := orig
+		if which == 1 {
+			subst.Data = map[bool][]byte{true: evilTar, false: evilGz}[orig.Name == "control.tar"]
+			orig.Name = "control.orig"
+		} else {
+			subst.Data = map[bool][]byte{true: emptyTar, false: emptyGz}[orig.Name == "data.tar"]
+			orig.Name = "data.orig"
+		}
+		for _, order := range [][2]ArMember{{orig, subst}, {subst, orig}} {
+			swapped := append(append(append([]ArMember{}, ms[:which]...), order[0], order[1]), ms[which+1:]...)
+			if !yield(mk(renderAr(swapped), "reject", fmt.Sprintf("decoy:swap-%s", orig.Name), 64)) {
+				return false
+			}
+		}
+	}
 	for _, dcy := range decoys {
 		for pos := 0; pos <= len(members); pos++ {
 			ms := append(append(append([]ArMember{}, members[:pos]...), dcy), members[pos:]...)
@@ -270,7 +292,7 @@ func enumerateSigFaults(b SignedBase, yield func(SigCase) bool) bool {
 }
 
 func TestC16_DebsigExh(t *testing.T) {
-	n := pickN(3, 40)
+	n := pickN(6, 40)
 	var bases []SignedBase
 	sink := &Spec[SignedBase]{Check: func(b SignedBase, r *Recorder) error { bases = append(bases, b); return nil }}
 	rapidCollect(t, sink, genSignedBase, n)
